@@ -12,7 +12,7 @@ import os
 import re
 import subprocess
 
-from .. import facts, report, tablerules, witness
+from .. import facts, report, tablerules, witness, encrules
 from . import c16
 
 
@@ -20,6 +20,10 @@ def rules(chk, db):
     tablerules.rules(chk, db, {'TW', 'TE', 'TC', 'TH', 'TL', 'TD', 'TR', 'TS'})
     # skipping unknown/deleted entries and landing exactly after the table is the bounded reader's/writer's frame arithmetic
     c16.rules(chk, db, prefix='B.')
+    # entry ids and sizes travel as 64-bit quantities through the whole dispatch path; an entry's declared size is Size(value)
+    chk.rule('NR', 'no narrowing of a decoded id / size / count in the table encoder', minimum=3)
+    encrules.narrowing(chk, db, 'NR', {'ReadPayload', 'Read', 'WritePayload', 'Write', 'Size'})
+    encrules.size_rules(chk, db)
 
 
 def run(chk, db):
